@@ -7,7 +7,7 @@ stdout per run: `ok <n>` | `diverge <why>`.
 
 Every trace line of a named location (`gpush`, `gpop`, `lpush.k`, `lpop.k`, `running`), every harness
 event and every `exit` / `join` must be the next step of that thread in `Babylon.Exec.step`.  The
-three hidden steps (publish / receive / release) are inserted as late as possible: immediately
+two hidden steps (publish / receive) are inserted as late as possible: immediately
 before the next visible action of the thread that owes them, or when another thread's visible action
 needs them (a claim of a ticket whose push is still pending in the model, a publish into a slot whose
 previous pop is still pending …). -/
@@ -98,12 +98,6 @@ def lblOf (a : Act) : Except String (Option Lbl) :=
 def findThread (r : RState) (p : Pc → Bool) : Option Nat :=
   (List.range (r.maxTid + 1)).find? (fun u => p (r.s.pc u))
 
-def holdsLocal (k i : Nat) : Pc → Bool
-  | .bRel k' i' => k' == k && i' == i
-  | .gTake _ (.bRel k' i') => k' == k && i' == i
-  | .gPub _ (.bRel k' i') => k' == k && i' == i
-  | _ => false
-
 /-- perform the hidden steps thread `t` owes (and, recursively, those they wait for) -/
 partial def force (r : RState) (t : Nat) (fuel : Nat) : Except String RState :=
   if fuel = 0 then .error "hidden-step inference ran out of fuel" else
@@ -140,19 +134,7 @@ partial def force (r : RState) (t : Nat) (fuel : Nat) : Except String RState :=
         match step r.c r.s t .publish with
         | some s' => .ok { r with s := s', hiddenSteps := r.hiddenSteps + 1 }
         | none => .error s!"thread {t}: publish of local ticket {p} is not enabled in the model"
-      else
-        match findThread r (holdsLocal k (p - r.c.lslots)) with
-        | some u => do
-          let r' ← force r u (fuel - 1)
-          -- the balancer may still have to do its release
-          let r'' ← (match r'.s.pc u with | .bRel _ _ => force r' u (fuel - 1) | _ => .ok r')
-          if (r''.s.l k).slotFree r.c.lslots p then force r'' t (fuel - 1)
-          else .error s!"thread {t} completed the push of local ticket {p} of queue {k} but slot {p - r.c.lslots} is still held in the model"
-        | none => .error s!"thread {t} completed the push of local ticket {p} of queue {k} but slot {p - r.c.lslots} is not free in the model"
-  | .bRel _ _ =>
-    match step r.c r.s t .release with
-    | some s' => .ok { r with s := s', hiddenSteps := r.hiddenSteps + 1 }
-    | none => .error s!"thread {t}: release is not enabled in the model"
+      else .error s!"thread {t} completed the push of local ticket {p} of queue {k} but slot {p - r.c.lslots} is not free in the model"
   | _ => .ok r
 
 def stepPool (r : RState) (o : Obs) (a : Act) : Except String RState := do
@@ -168,7 +150,6 @@ def stepPool (r : RState) (o : Obs) (a : Act) : Except String RState := do
     -- a thread other than the stopper/balancer never loads `_running`; the main thread's own joins of
     -- harness threads are `idle` joins
     let r ← force r t 64
-    let r ← (match r.s.pc t with | .bRel _ _ => force r t 64 | .gPub _ _ => force r t 64 | _ => .ok r)
     match step r.c r.s t lb with
     | some s' => return { r with s := s' }
     | none =>
@@ -190,7 +171,7 @@ def stepPool (r : RState) (o : Obs) (a : Act) : Except String RState := do
 partial def settle (r : RState) (fuel : Nat) : RState :=
   if fuel = 0 then r else
   let try1 (r : RState) (u : Nat) : Option RState :=
-    [Lbl.publish, Lbl.receive, Lbl.release].findSome? (fun lb =>
+    [Lbl.publish, Lbl.receive].findSome? (fun lb =>
       (step r.c r.s u lb).map (fun s' => { r with s := s', hiddenSteps := r.hiddenSteps + 1 }))
   match (List.range (r.maxTid + 1)).findSome? (try1 r) with
   | some r' => settle r' (fuel - 1)
